@@ -525,6 +525,15 @@ impl MinCostFlowSolver {
                 })
                 .flatten()
             {
+                #[cfg(rssched_verif)]
+                {
+                    // the order in which the graph lists the entering flow units (replayed on the model's decoding)
+                    let tail = match pred_trip_node {
+                        TripNode::ServiceOrMaintenance(x) => format!("R:{}", x),
+                        TripNode::Depot(d) => format!("R:depot_{}", d),
+                    };
+                    crate::verif_hooks::mcf_line(format!("DSTEP {} {}", node, tail));
+                }
                 match (pred_trip_node, trip_node) {
                     (TripNode::ServiceOrMaintenance(pred_service_trip), _) => {
                         // Flow goes from service trip to service trip -> Use existing tour
